@@ -3,14 +3,20 @@ from __future__ import annotations
 
 import json
 
-from . import drv_fcs
+from . import drv_fcs, drv_hdlc
 
 CHECKS = {
+    "C01": (drv_hdlc.run_c01, "model_checking"),
+    "C02": (drv_hdlc.run_c02, "model_checking"),
     "C03": (drv_fcs.run, "model_checking"),
+    "C06": (drv_hdlc.run_c06, "model_checking"),
 }
 
 REPLAYERS = {
+    "C01": drv_hdlc.replay_c01,
+    "C02": drv_hdlc.replay_c02,
     "C03": drv_fcs.replay,
+    "C06": drv_hdlc.replay_c06,
 }
 
 
